@@ -11,6 +11,7 @@ ap.add_argument("--tier", default="quick")
 ap.add_argument("--src")
 ap.add_argument("--name", default="")
 ap.add_argument("--also", default="", help="comma-separated other property ids to run too")
+ap.add_argument("--worktree", action="store_true", help="run the checks against the seeded worktree (VERIF_REPO/PYTHONPATH) instead of applying the patch to /repo")
 a = ap.parse_args()
 pid = a.pid
 src = a.src or f"/tmp/seed/{pid}"
@@ -34,27 +35,34 @@ ns = "unshare -n bash -c 'ip link set lo up; cd {d} && timeout 300 /venv/bin/pyt
 for f in demo:
     shutil.copy(os.path.join(src, f), os.path.join(dest, f))
     rc_with, out_with = sh(ns.format(d=src, f=f))
-    sh("git stash -q", cwd=src)
+    pth = os.path.join(dest, "patch.diff")
+    sh(f"git apply -R {pth}", cwd=src)   # never `git stash`: the stash is shared by all worktrees
     try:
         rc_without, out_without = sh(ns.format(d=src, f=f))
     finally:
-        sh("git stash pop -q", cwd=src)
+        sh(f"git apply {pth}", cwd=src)
     meta["demo_with_change"] = {"exit": rc_with, "tail": out_with[-600:]}
     meta["demo_without_change"] = {"exit": rc_without, "tail": out_without[-300:]}
     print(f"demo {f}: with change exit={rc_with}, without exit={rc_without}")
-# run the check(s) against /repo with the change applied
-rc, out = sh("git status --short", cwd="/repo")
-if out.strip():
-    sys.exit("/repo is not clean: " + out)
-rc, out = sh(f"git apply {os.path.join(dest, 'patch.diff')}", cwd="/repo")
-if rc != 0:
-    sys.exit("patch does not apply to /repo: " + out)
+# run the check(s) against the seeded tree
 results = {}
+env_prefix = ""
+if a.worktree:
+    env_prefix = f"VERIF_REPO={src} PYTHONPATH={src} "
+    meta["mode"] = "checks run against the seeded worktree via VERIF_REPO/PYTHONPATH"
+else:
+    meta["mode"] = "patch applied to /repo (git apply), checks run, git checkout -- ."
+    rc, out = sh("git status --short", cwd="/repo")
+    if out.strip():
+        sys.exit("/repo is not clean: " + out)
+    rc, out = sh(f"git apply {os.path.join(dest, 'patch.diff')}", cwd="/repo")
+    if rc != 0:
+        sys.exit("patch does not apply to /repo: " + out)
 try:
     for p in [pid] + [x for x in a.also.split(",") if x]:
         t0 = time.time()
         try:
-            rc, out = sh(f"./check {p} --tier {a.tier}", cwd=ROOT, timeout=3000)
+            rc, out = sh(f"{env_prefix}./check {p} --tier {a.tier}", cwd=ROOT, timeout=3000)
         except subprocess.TimeoutExpired:
             rc, out = 2, "TIMEOUT"
         lines = [l for l in out.splitlines() if l.startswith("VIOLATION") or "failing input" in l or "broken obligation" in l or l.startswith("[" + p)]
@@ -63,8 +71,9 @@ try:
         for l in lines[:8]:
             print("   ", l[:300])
 finally:
-    sh("git checkout -- .", cwd="/repo")
-    sh("git clean -fdq pynetdicom", cwd="/repo")
+    if not a.worktree:
+        sh("git checkout -- .", cwd="/repo")
+        sh("git clean -fdq pynetdicom", cwd="/repo")
 meta["checks_on_seeded_tree"] = results
 rc, out = sh("git status --short", cwd="/repo")
 meta["repo_clean_after"] = not out.strip()
